@@ -245,12 +245,40 @@ pub fn nth_case(seed: u64, idx: u64) -> Case {
         return corpus[idx as usize].clone();
     }
     let mut rng = Rng::new(seed.wrapping_mul(0x9E37_79B9_7F4A_7C15).wrapping_add(idx));
-    if idx % 3 == 2 {
+    if idx % 17 == 16 {
+        large_case(&mut rng)
+    } else if idx % 3 == 2 {
         let e = rng.below(EXHAUSTIVE_SIZE);
         exhaustive_case(e, &mut rng)
     } else {
         random_case(&mut rng)
     }
+}
+
+/// towards the edge of the theorems' domain: explicit counts up to 64, lines in [-64,64], spans up to 64, up to 10 children
+pub fn large_case(rng: &mut Rng) -> Case {
+    let ec = *rng.pick(&[0i64, 1, 7, 30, 64]);
+    let er = *rng.pick(&[0i64, 2, 9, 33, 64]);
+    let flow = rng.below(4) as i64;
+    let n = 1 + rng.below(10) as usize;
+    let mut pl = |rng: &mut Rng| match rng.below(10) {
+        0..=3 => (0, 0),
+        4..=5 => (1, rng.below(129) as i64 - 64),
+        6 => (1, *rng.pick(&[-64i64, -63, -1, 1, 63, 64])),
+        7 => (2, 1 + rng.below(64) as i64),
+        _ => (2, 1 + rng.below(4) as i64),
+    };
+    let children = (0..n)
+        .map(|_| Child {
+            kind: match rng.below(12) {
+                0 => 1,
+                1 => 2,
+                _ => 0,
+            },
+            p: [pl(rng), pl(rng), pl(rng), pl(rng)],
+        })
+        .collect();
+    Case { ec, er, flow, children }
 }
 
 /// larger random family for the oracle: up to 12 children, explicit counts 0..=6, lines in [-8,8], spans 1..=4
